@@ -502,6 +502,21 @@ def descendSurvivor (r : Result) : Option Node :=
   | .node n => some (survivor (descend n))
   | _ => none
 
+/-- a child taken out of its element by `remove(int)`, `remove(const Xml&)`, `clear()` or `put(value)`:
+    `orphan(i)` clears its parent pointer when it leaves (commit dcdfbd7), the subtree below it is untouched -/
+def detached (c : Node) : Node := c.clearParent
+
+/-- `Xml r = decode(x); Xml p = <k-th node of r>; Xml c = p.child(j); p.<mutator>;` then `c`
+    (`none` when the k-th node is a text node or has no children) -/
+def pickDetached (r : Result) (k j : Nat) : Option Node :=
+  match r with
+  | .node n =>
+    let l := preorder n
+    match l[k % l.length]? with
+    | some (.elem _ _ _ _ cs) => (cs[j % cs.length]?).map detached
+    | _ => none
+  | _ => none
+
 /-- `!e` for the returned object: a text node or an element with an empty tag counts as null -/
 def Result.isNull : Result → Bool
   | .node (.elem _ _ tag _ _) => tag.isEmpty
